@@ -299,6 +299,12 @@ class err_handler(object):
             # set, can not be filed under a set: it is invalid interchange content
             self.isa_error('024', err_str)
             return
+        if self.seg_node_added and self.cur_seg_node is not None \
+                and self.cur_seg_node.id in ('ISA', 'GS', 'ST'):
+            # A reader error of an envelope segment itself (ISA, IEA, GS, GE,
+            # ST): the envelope nodes hold no segment errors
+            self.isa_error('024', err_str)
+            return
         try:
             self._add_cur_seg()
             self.cur_seg_node.add_error(err_cde, err_str, err_value)
